@@ -39,8 +39,11 @@ def run(ctx: Ctx):
 
     f = util.nf(ctx, "transformer.py", "TreeToODE.ode")  # private helpers expanded
     # the per-component containers
-    set_containers = any(isinstance(l, ast.DictComp) and norm(l.value) in ("set()", "frozenset()") for l in ast.walk(f.node))
-    frozen = [n for n in ast.walk(f.node) if isinstance(n, ast.Call) and norm(n.func) == "frozenset"]
+    # ... which may live in a small private collector class of the module that TreeToODE.ode instantiates
+    used_names = {n.id for n in ast.walk(f.node) if isinstance(n, ast.Name)}
+    scope = [f.node] + [c_.node for (r_, q_), c_ in sm.classes.items() if r_ == f.rel and q_ in used_names and q_.startswith("_")]
+    set_containers = any(isinstance(l, ast.DictComp) and norm(l.value) in ("set()", "frozenset()") for sc_ in scope for l in ast.walk(sc_))
+    frozen = [n for sc_ in scope for n in ast.walk(sc_) if isinstance(n, ast.Call) and norm(n.func) == "frozenset"]
     comp_calls = [n for n in ast.walk(f.node) if isinstance(n, ast.Call) and norm(n.func).endswith("Component")]
     ctx.check(set_containers or bool(frozen), "R10.b", f.key("containers"), "atoms are gathered in sets and frozen before Component(...) is called", "TreeToODE.ode no longer gathers the atoms of a component in (frozen)sets: the order of lines in the text could reach the components", f.where())
     ctx.check(bool(comp_calls), "R10.b", f.key("component-construction"), "components are built from the gathered containers", "TreeToODE.ode does not construct Component objects", f.where())
